@@ -20,7 +20,7 @@ def build_vinstr():
     return binp, ""
 
 
-def instrument(ctx, rel, out_name, rules, fields="", chan=False, funcs=""):
+def instrument(ctx, rel, out_name, rules, fields="", chan=False, funcs="", hook=""):
     """instrument REPO/<rel> into ctx.work/<out_name>; returns (path or None, message)"""
     binp, msg = build_vinstr()
     if binp is None:
@@ -33,6 +33,8 @@ def instrument(ctx, rel, out_name, rules, fields="", chan=False, funcs=""):
         cmd += ["-chan"]
     if funcs:
         cmd += ["-funcs", funcs]
+    if hook:
+        cmd += ["-hook", hook]
     rc, out = sh(cmd, timeout=60)
     if rc != 0:
         return None, out
